@@ -209,6 +209,8 @@ func (o hop) String() string {
 		return fmt.Sprintf("data %d %s %d %s %s", o.face, o.name, o.variant, opt(o.fresh), o.tok)
 	case "run":
 		return fmt.Sprintf("run %d", o.n)
+	case "runns":
+		return fmt.Sprintf("runns %d", o.n)
 	case "quiesce":
 		return "quiesce"
 	}
@@ -246,6 +248,8 @@ func parseHop(s string) hop {
 		return hop{kind: "data", face: fc, name: parseNm(f[2]), variant: unopt(f[3]), fresh: unopt(f[4]), tok: f[5]}
 	case "run":
 		return hop{kind: "run", n: unopt(f[1])}
+	case "runns":
+		return hop{kind: "runns", n: unopt(f[1])}
 	case "quiesce":
 		return hop{kind: "quiesce"}
 	}
@@ -427,7 +431,7 @@ func genCase(r *rand.Rand, mode string) (caseCfg, []hop) {
 	}
 	nops := 10 + r.Intn(50)
 	lifetimes := []int{-1, -1, 0, 1, 50, 300, 1000, 2500} // -1 = no InterestLifetime (default applies); 0 is a lifetime of 0 ms
-	freshes := []int{-1, 0, 1, 100, 1000, 5000, 5000}
+	freshes := []int{-1, 0, 1, 2, 25, 100, 1000, 5000, 5000}
 	noncePool := make([]uint32, 6)
 	for i := range noncePool {
 		noncePool[i] = r.Uint32()
@@ -531,6 +535,19 @@ func genCase(r *rand.Rand, mode string) (caseCfg, []hop) {
 			}
 		default:
 			o = hop{kind: "run", n: []int{1, 1, 5, 50, 99, 100, 101, 250, 499, 500, 501, 1000, 2500, 4000, 4100}[r.Intn(15)]}
+		}
+		if o.kind == "run" && r.Intn(3) == 0 { // event times that are not millisecond aligned
+			o = hop{kind: "runns", n: []int{1, 300000, 999999, 1000001, 700000, 123457, 1999999, 50000001}[r.Intn(8)]}
+		}
+		if o.kind == "ins" && !fwOnly && r.Intn(4) == 0 {
+			// freshness boundary: insert with a short FreshnessPeriod at an unaligned instant, then a MustBeFresh exact lookup
+			// 1 ns / 300 us before the period ends, exactly at its end, 1 ns after
+			f := []int{1, 2, 25}[r.Intn(3)]
+			o.fresh = f
+			delta := []int{-1, -300000, 0, 1, -999999}[r.Intn(5)]
+			ops = append(ops, hop{kind: "runns", n: []int{300000, 999999, 123457, 1}[r.Intn(4)]}, o,
+				hop{kind: "runns", n: f*1000000 + delta}, hop{kind: "find", name: o.name, cbp: false, mbf: true})
+			continue
 		}
 		ops = append(ops, o)
 		if (o.kind == "int" || o.kind == "data") && r.Intn(3) != 0 {
@@ -878,6 +895,9 @@ func (w *world) exec(o hop) {
 		w.line("op data %s %d %s %s", o.name, w.wid(raw), opt(o.fresh), tok)
 	case "run":
 		w.runFor(time.Duration(o.n) * time.Millisecond)
+		return
+	case "runns":
+		w.runFor(time.Duration(o.n))
 		return
 	case "quiesce":
 		// longer than every Interest lifetime, then the DNL lifetime, then the sweeps needed for what is queued
